@@ -159,6 +159,22 @@ type skipCond struct {
 }
 
 func (s skipCond) match(g Guard) bool {
+	if s.callee == "REL:matured" {
+		// any comparison equivalent to "completion < block time"
+		for _, rel := range relsOf(g) {
+			if rel.TA == nil || rel.TB == nil {
+				continue
+			}
+			a, b, op := rel.TA, rel.TB, rel.Op
+			if isBlockTime(a) {
+				a, b, op = b, a, flipOp[op]
+			}
+			if isBlockTime(b) && op == "<" && !isBlockTime(a) {
+				return true
+			}
+		}
+		return false
+	}
 	if g.Pos != s.pos {
 		return false
 	}
@@ -181,7 +197,7 @@ type loopSpec struct {
 	props  []string
 }
 
-var matureSkip = skipCond{"time.Time.Before", true, "BlockTime", "entry already matured (completion < block time)"}
+var matureSkip = skipCond{"REL:matured", true, "", "entry already matured (completion < block time)"}
 
 var loopSpecs = []loopSpec{
 	{fn: "keeper.Keeper.slashUndelegations", what: "index keys of the slashed validator", anchor: []string{"corestore.KVStore.Set", "storetypes.KVStore.Set"}, outer: true,
